@@ -2,11 +2,14 @@
 
 R1  parse-once discipline of both Request.get_media (typestate-style
     dominance/path queries + WSGI/ASGI event-language equality + ownership of
-    the two cache attributes)
+    the two cache attributes); the cached error object is re-raised untouched
+    (`raise <cached> from <x>` rewrites its __cause__)
 R2  handler error mapping (JSON, URL-encoded) to the two 400-class errors
 R3  codec agreement of each serializer/deserializer pair
 R4  response render cache (writers reset it; the three render_body siblings
-    render only when it is unset)
+    render only when it is unset; the "render the media" step may live in an
+    argument-less method of the same class called on `self` - _RenderHelper -
+    that returns or itself stores the rendition)
 R5  handler resolution in one case form (C11 R9)
 R6  the form serializer's quoting function is injective on text
 R7  the form reader answers "malformed" only for a failure of its parsing
@@ -292,6 +295,16 @@ def _check_get_media(run, qual: str):
         run.check(bool(ok), '%s: a cached value is returned as is, without touching handler, stream or cache' % tag, f, cfg.node(a).ast,
                   where=loc(cfg.node(a)), witness=[cfg.node(x).text() for x in bad[:4]],
                   runtime_witness='the second get_media() returns a different object')
+    def is_cached_error(e) -> bool:
+        # `self._media_error`, or a local bound once to it
+        if _is_attr_of(e, 'self', '_media_error'):
+            return True
+        if isinstance(e, ast.Name) and e.id not in f.params():
+            binds = _assignments(f.node, e.id)
+            return len(binds) == 1 and binds[0][1] is not None and _is_attr_of(binds[0][1], 'self', '_media_error')
+        return False
+
+    reraises: Dict[int, ast.Raise] = {}
     for (a, b, l, c) in err_edges:
         if not c:
             continue
@@ -302,13 +315,26 @@ def _check_get_media(run, qual: str):
             nx = cfg.node(x)
             if nx.kind == 'stmt' and isinstance(nx.ast, ast.Return) and not g.is_retdef(nx):
                 ends_ok = False
-            if nx.kind == 'stmt' and isinstance(nx.ast, ast.Raise) and not _is_attr_of(nx.ast.exc, 'self', '_media_error'):
+            if nx.kind == 'stmt' and isinstance(nx.ast, ast.Raise) and not is_cached_error(nx.ast.exc):
                 ends_ok = False
+            elif nx.kind == 'stmt' and isinstance(nx.ast, ast.Raise):
+                reraises[id(nx.ast)] = nx
         run.check(not bad and ends_ok and cfg.exit not in flow.reachable(cfg, [b], avoid_nodes=[x for x in reach if cfg.node(x).kind == 'stmt'
                   and isinstance(cfg.node(x).ast, (ast.Return, ast.Raise))], edge_filter=flow.no_exc),
                   '%s: a cached error is re-raised as is (or answered by the default), without touching handler, stream or cache' % tag, f,
                   cfg.node(a).ast, where=loc(cfg.node(a)), witness=[cfg.node(x).text() for x in bad[:4]],
                   runtime_witness='the second get_media() after a failure raises a different error or parses again')
+
+    # (b') "re-raise the same error": the cached exception OBJECT is raised untouched.  `raise <cached> from <x>` assigns
+    # <cached>.__cause__ (and __suppress_context__) on the cached object itself; MediaMalformedError.description is
+    # computed from __cause__, so the second access renders another 400 document than the first.
+    if not reraises:
+        raise AnchorError('%s: re-raise of the cached error not found' % qual)
+    for nx in reraises.values():
+        run.check(nx.ast.cause is None, '%s: the cached error is re-raised as it is - `raise <cached error> from <x>` rewrites __cause__ of the '
+                  'cached exception object' % tag, f, nx.ast, where=loc(nx),
+                  runtime_witness='malformed JSON body, req.media twice: the first 400 says "Could not parse JSON body - Expecting value: ...", '
+                                  'the second only "Could not parse JSON body" (description is computed from __cause__)')
 
     # (c) the deserialized value is stored on the normal edge
     for n in g.deser_nodes:
@@ -699,6 +725,122 @@ def _recv(e) -> Optional[str]:
     return e.value.id if isinstance(e, ast.Attribute) and isinstance(e.value, ast.Name) else None
 
 
+def _resolve_roles(cfg):
+    """the unpackings of `..._resolve(...)`: (node, handler local at position 0, serialize_sync local at position 1)"""
+    roles = []
+    for n in cfg.live_nodes():
+        if n.kind == 'stmt' and isinstance(n.ast, ast.Assign) and len(n.ast.targets) == 1 and isinstance(n.ast.targets[0], ast.Tuple) \
+                and len(n.ast.targets[0].elts) == 3:
+            v = strip_await(n.ast.value)
+            if isinstance(v, ast.Call) and isinstance(v.func, ast.Attribute) and v.func.attr == '_resolve':
+                t = n.ast.targets[0].elts
+                h = t[0].id if isinstance(t[0], ast.Name) else None
+                s = t[1].id if isinstance(t[1], ast.Name) and t[1].id != '_' else None
+                roles.append((n, h, s))
+    return roles
+
+
+def _is_ser_call(c, roles) -> bool:
+    fn_ = c.func
+    for (_n, h, s) in roles:
+        if isinstance(fn_, ast.Attribute) and isinstance(fn_.value, ast.Name) and fn_.value.id == h and fn_.attr.startswith('serialize'):
+            return True
+        if s is not None and isinstance(fn_, ast.Name) and fn_.id == s:
+            return True
+    return False
+
+
+def _unset_edges(p, f: Func, cfg, r: str):
+    """branch edges of `f` on which `<r>._media_rendered` is known to be the unset sentinel"""
+    def cached(test, truth):
+        for a in [x for x in walk_self(test) if isinstance(x, ast.Compare) and len(x.ops) == 1 and isinstance(x.ops[0], (ast.Is, ast.IsNot))
+                  and _is_attr_of(x.left, r, '_media_rendered') and _is_unset(p, f, x.comparators[0])]:
+            v = implied(test, truth, lambda e, a=a: e is a)
+            if v is not None:
+                return v if isinstance(a.ops[0], ast.IsNot) else (not v)
+        return None
+
+    out = []
+    for t in cfg.live_nodes():
+        if t.kind == 'test':
+            for (y, l) in cfg.succ[t.id]:
+                if l in ('T', 'F') and cached(t.ast, l == 'T') is False:
+                    out.append((t.id, y, l))
+    return out
+
+
+class _RenderHelper:
+    """Summary of a method of a Response class that a render site calls on `self` and that performs the "render the
+    media" step (resolve the handler, serialize `self._media`) on the same object.  Two shapes are read:
+      returns   every `return` of the helper hands back the rendition (the serialization call itself, or a local that is
+                bound to renditions only and returned on every normal path from the serialization) and the helper does
+                not touch the cache - the CALL in the render site then stands for the serialization call;
+      stores    the helper writes `self._media_rendered` itself from the serialization (same clauses as at a render
+                site, decided inside the helper) - the call statement stands for serialization + store.
+    Anything else is an unknown idiom."""
+
+    def __init__(self, run, p, g: Func):
+        self.g = g
+        a = g.node.args
+        pos = a.posonlyargs + a.args
+        if not pos or a.vararg or a.kwarg or len(pos) != 1 or a.kwonlyargs:
+            raise UnknownIdiom('%s: a helper performing the media rendition that takes arguments' % g.qual)
+        self.selfname = sn = pos[0].arg
+        cfg = self.cfg = cfg_of(g, p)
+        run.use_cfg(cfg)
+        self.roles = _resolve_roles(cfg)
+        self.sers = [n for n in cfg.live_nodes() if n.kind == 'stmt' and any(_is_ser_call(c, self.roles) for c in n.calls())
+                     and any(isinstance(x, ast.Attribute) and x.attr == '_media' for x in n.walk())]
+        self.kind = None
+        if not self.sers:
+            return
+        kinds = set()
+        self.rendition_returns: Set[int] = set()
+        ser_stmts = {id(x.ast) for x in self.sers}
+        for n in self.sers:
+            tg = _writes(n.ast, '_media_rendered')
+            if tg:
+                if len(tg) != 1 or _recv(tg[0]) != sn:
+                    raise UnknownIdiom('%s: store of the rendition %s' % (g.qual, short(n.ast, 80)))
+                kinds.add('stores')
+                continue
+            if isinstance(n.ast, ast.Return) and n.ast.value is not None:
+                v = strip_await(n.ast.value)
+                if isinstance(v, ast.Call) and _is_ser_call(v, self.roles):
+                    kinds.add('returns')
+                    self.rendition_returns.add(id(n.ast))
+                    continue
+            if isinstance(n.ast, (ast.Assign, ast.AnnAssign)) and n.ast.value is not None:
+                lt = n.ast.targets if isinstance(n.ast, ast.Assign) else [n.ast.target]
+                v = strip_await(n.ast.value)
+                if len(lt) == 1 and isinstance(lt[0], ast.Name) and lt[0].id != sn and isinstance(v, ast.Call) and _is_ser_call(v, self.roles):
+                    L = lt[0].id
+                    binds = _assignments(g.node, L)
+                    rets = [x for x in cfg.live_nodes() if x.kind == 'stmt' and isinstance(x.ast, ast.Return) and isinstance(x.ast.value, ast.Name)
+                            and x.ast.value.id == L]
+                    succs0 = [y for (y, l) in cfg.succ[n.id] if l != 'exc']
+                    if binds and all(id(st) in ser_stmts for st, _v in binds) and rets and \
+                            flow.find_path(cfg, succs0, [cfg.exit], avoid_nodes=[x.id for x in rets], edge_filter=flow.no_exc) is None:
+                        kinds.add('returns')
+                        self.rendition_returns.update(id(x.ast) for x in rets)
+                        continue
+            raise UnknownIdiom('%s: what becomes of the rendition %s' % (g.qual, short(n.ast, 80)))
+        if len(kinds) != 1:
+            raise UnknownIdiom('%s: the renditions are partly returned, partly stored' % g.qual)
+        self.kind = kinds.pop()
+        if self.kind == 'returns':
+            for x in cfg.live_nodes():
+                if x.kind == 'stmt' and isinstance(x.ast, ast.Return) and id(x.ast) not in self.rendition_returns:
+                    raise UnknownIdiom('%s: `%s` does not return the rendition' % (g.qual, short(x.ast, 60)))
+            if flow.find_path(cfg, [cfg.entry], [cfg.exit], avoid_nodes=[x.id for x in cfg.live_nodes() if x.kind == 'stmt'
+                                                                             and id(x.ast) in self.rendition_returns],
+                              edge_filter=flow.no_exc) is not None:
+                raise UnknownIdiom('%s: a normal path leaves the helper without returning a rendition' % g.qual)
+            for fn_n in walk_self(g.node):
+                if isinstance(fn_n, ast.stmt) and _writes(fn_n, '_media_rendered'):
+                    raise UnknownIdiom('%s: returns the rendition and also writes the cache' % g.qual)
+
+
 def r4_render_cache(run):
     p = run.project
     resp_classes = {q for q in p.classes if p.is_subclass(q, 'falcon.response.Response') is True}
@@ -754,87 +896,106 @@ def r4_render_cache(run):
         raise AnchorError('writers of Response._media not found (%d)' % n_w)
 
     # (b) the three render sites render only when the cache is unset, into the cache, and answer from it
+    helper_sites: Set[str] = set()
     for qual in RENDER_SITES:
         f = p.func(qual)
         cfg = cfg_of(f, p)
         run.use_cfg(cfg)
         tag = qual.split('.', 1)[1]
         # the unpacking of ..._resolve(...): handler at 0, serialize_sync at 1
-        roles = []
-        for n in cfg.live_nodes():
-            if n.kind == 'stmt' and isinstance(n.ast, ast.Assign) and len(n.ast.targets) == 1 and isinstance(n.ast.targets[0], ast.Tuple) \
-                    and len(n.ast.targets[0].elts) == 3:
-                v = strip_await(n.ast.value)
-                if isinstance(v, ast.Call) and isinstance(v.func, ast.Attribute) and v.func.attr == '_resolve':
-                    t = n.ast.targets[0].elts
-                    h = t[0].id if isinstance(t[0], ast.Name) else None
-                    s = t[1].id if isinstance(t[1], ast.Name) and t[1].id != '_' else None
-                    roles.append((n, h, s))
+        roles = _resolve_roles(cfg)
+        # the "render the media" step may live in a method of the same class called on `self` (the same response object):
+        # its summary is inlined
+        helpers: Dict[int, _RenderHelper] = {}
+        a0 = f.node.args.posonlyargs + f.node.args.args
+        selfname = a0[0].arg if a0 and func_owner_class(f) is not None and func_owner_class(f).qual in resp_classes else None
+        if selfname is not None:
+            for n in cfg.live_nodes():
+                for c in (n.calls() if n.kind == 'stmt' else []):
+                    if isinstance(c.func, ast.Attribute) and isinstance(c.func.value, ast.Name) and c.func.value.id == selfname:
+                        g = p.callee(f, c)
+                        if isinstance(g, Func) and g is not f and func_owner_class(g) is not None and func_owner_class(g).qual in resp_classes \
+                                and not g.is_property():
+                            if any(isinstance(x, ast.Attribute) and x.attr == '_resolve' for x in walk_self(g.node)):
+                                h = _RenderHelper(run, p, g)
+                                if h.kind is not None:
+                                    if c.args or c.keywords:
+                                        raise UnknownIdiom('%s: arguments of %s' % (qual, short(c, 60)))
+                                    helpers[id(c)] = h
 
-        def is_ser(c, roles=roles):
-            fn_ = c.func
-            for (_n, h, s) in roles:
-                if isinstance(fn_, ast.Attribute) and isinstance(fn_.value, ast.Name) and fn_.value.id == h and fn_.attr.startswith('serialize'):
-                    return True
-                if s is not None and isinstance(fn_, ast.Name) and fn_.id == s:
-                    return True
-            return False
+        def is_ser(c, roles=roles, helpers=helpers):
+            return id(c) in helpers or _is_ser_call(c, roles)
+
+        def helper_of(n, helpers=helpers):
+            hs = [helpers[id(c)] for c in n.calls() if id(c) in helpers]
+            return hs[0] if hs else None
 
         sers = [n for n in cfg.live_nodes() if n.kind == 'stmt' and any(is_ser(c) for c in n.calls())]
-        # restrict (for App.__call__) to those that write a _media_rendered cache or sit next to one
-        sers = [n for n in sers if _writes(n.ast, '_media_rendered') or qual != RENDER_SITES[2] or True]
-        sers = [n for n in sers if any(isinstance(x, ast.Attribute) and x.attr == '_media' for x in n.walk())]
+        sers = [n for n in sers if helper_of(n) is not None or any(isinstance(x, ast.Attribute) and x.attr == '_media' for x in n.walk())]
         if not sers:
             raise AnchorError('%s: serialization of the response media not found' % qual)
         for n in sers:
-            tg = _writes(n.ast, '_media_rendered')
             where = '%s:%s' % (f.file, n.lineno)
-            via_local = None     # the rendition is first held in a local that only renditions are assigned to, then stored once
-            if not tg and isinstance(n.ast, (ast.Assign, ast.AnnAssign)) and n.ast.value is not None:
-                lt = n.ast.targets if isinstance(n.ast, ast.Assign) else [n.ast.target]
-                if len(lt) == 1 and isinstance(lt[0], ast.Name) and lt[0].id not in f.params():
-                    L = lt[0].id
-                    binds = _assignments(f.node, L)
-                    ser_stmts = {id(x.ast) for x in sers}
-                    only_renditions = bool(binds) and all(id(st) in ser_stmts for st, _v in binds)
-                    stores = [x for x in cfg.live_nodes() if x.kind == 'stmt' and isinstance(x.ast, ast.Assign) and _writes(x.ast, '_media_rendered')
-                              and isinstance(x.ast.value, ast.Name) and x.ast.value.id == L]
-                    recvs = {_recv(t) for x in stores for t in _writes(x.ast, '_media_rendered')}
-                    if only_renditions and stores and len(recvs) == 1 and None not in recvs:
-                        succs0 = [y for (y, l) in cfg.succ[n.id] if l != 'exc']
-                        skip = flow.find_path(cfg, succs0, [cfg.exit], avoid_nodes=[x.id for x in stores], edge_filter=flow.no_exc)
-                        if skip is None:
-                            via_local = (L, next(iter(recvs)), stores)
-            if via_local is None:
-                if not run.check(len(tg) == 1 and _recv(tg[0]) is not None, '%s: the serialized media is stored in the rendered-media cache' % tag, f, n.ast,
-                                 where=where, runtime_witness='every render_body() serializes again (and may differ)'):
-                    continue
-                r = _recv(tg[0])
+            hlp = helper_of(n)
+            if hlp is not None:
+                if len([c for c in n.calls() if is_ser(c)]) != 1:
+                    raise UnknownIdiom('%s: %s' % (qual, short(n.ast, 80)))
+                helper_sites.add(hlp.g.qual)
+                # what the helper serializes is the media of `self`, the object it was called on
+                for m in hlp.sers:
+                    hargs = [a for c in m.calls() if _is_ser_call(c, hlp.roles) for a in c.args]
+                    run.check(any(_is_attr_of(a, hlp.selfname, '_media') for a in hargs),
+                              '%s (through %s): what is serialized is the media of the same response' % (tag, hlp.g.name), hlp.g, m.ast,
+                              where=hlp.g.loc(m.ast))
+            if hlp is not None and hlp.kind == 'stores':
+                # the helper stores the rendition itself: the call statement stands for serialization + store
+                r = selfname
+                run.ok('%s: the serialized media is stored in the rendered-media cache (by %s, called on the same object)' % (tag, hlp.g.name),
+                       where, n.ast)
+                h_edges = _unset_edges(p, hlp.g, hlp.cfg, hlp.selfname)
+                in_helper = all(any(flow.dominated_by_edge(hlp.cfg, m.id, e) for e in h_edges) for m in hlp.sers)
+                in_caller = any(flow.dominated_by_edge(cfg, n.id, e) for e in _unset_edges(p, f, cfg, r))
+                run.check(in_helper or in_caller, '%s: the media is serialized only when the rendered-media cache is unset' % tag, f, n.ast,
+                          where=where, runtime_witness='render_body() twice calls the handler twice')
+                via_local = None
             else:
-                run.ok('%s: the serialized media is stored in the rendered-media cache (through the local %s, on every normal path '
-                       'from the serialization)' % (tag, via_local[0]), where, n.ast)
-                r = via_local[1]
+                tg = _writes(n.ast, '_media_rendered')
+                via_local = None     # the rendition is first held in a local that only renditions are assigned to, then stored once
+                if not tg and isinstance(n.ast, (ast.Assign, ast.AnnAssign)) and n.ast.value is not None:
+                    lt = n.ast.targets if isinstance(n.ast, ast.Assign) else [n.ast.target]
+                    if len(lt) == 1 and isinstance(lt[0], ast.Name) and lt[0].id not in f.params():
+                        L = lt[0].id
+                        binds = _assignments(f.node, L)
+                        ser_stmts = {id(x.ast) for x in sers}
+                        only_renditions = bool(binds) and all(id(st) in ser_stmts for st, _v in binds)
+                        stores = [x for x in cfg.live_nodes() if x.kind == 'stmt' and isinstance(x.ast, ast.Assign) and _writes(x.ast, '_media_rendered')
+                                  and isinstance(x.ast.value, ast.Name) and x.ast.value.id == L]
+                        recvs = {_recv(t) for x in stores for t in _writes(x.ast, '_media_rendered')}
+                        if only_renditions and stores and len(recvs) == 1 and None not in recvs:
+                            succs0 = [y for (y, l) in cfg.succ[n.id] if l != 'exc']
+                            skip = flow.find_path(cfg, succs0, [cfg.exit], avoid_nodes=[x.id for x in stores], edge_filter=flow.no_exc)
+                            if skip is None:
+                                via_local = (L, next(iter(recvs)), stores)
+                if via_local is None:
+                    if not run.check(len(tg) == 1 and _recv(tg[0]) is not None, '%s: the serialized media is stored in the rendered-media cache' % tag, f, n.ast,
+                                     where=where, runtime_witness='every render_body() serializes again (and may differ)'):
+                        continue
+                    r = _recv(tg[0])
+                else:
+                    run.ok('%s: the serialized media is stored in the rendered-media cache (through the local %s, on every normal path '
+                           'from the serialization)' % (tag, via_local[0]), where, n.ast)
+                    r = via_local[1]
+                if hlp is not None and r != selfname:
+                    raise UnknownIdiom('%s: the rendition of %s is stored on another object (%s)' % (qual, selfname, short(n.ast, 80)))
 
-            def cached(test, truth, r=r):
-                for a in [x for x in walk_self(test) if isinstance(x, ast.Compare) and len(x.ops) == 1 and isinstance(x.ops[0], (ast.Is, ast.IsNot))
-                          and _is_attr_of(x.left, r, '_media_rendered') and _is_unset(p, f, x.comparators[0])]:
-                    v = implied(test, truth, lambda e, a=a: e is a)
-                    if v is not None:
-                        return v if isinstance(a.ops[0], ast.IsNot) else (not v)
-                return None
-
-            unset_edges = []
-            for t in cfg.live_nodes():
-                if t.kind == 'test':
-                    for (y, l) in cfg.succ[t.id]:
-                        if l in ('T', 'F') and cached(t.ast, l == 'T') is False:
-                            unset_edges.append((t.id, y, l))
-            run.check(any(flow.dominated_by_edge(cfg, n.id, e) for e in unset_edges),
-                      '%s: the media is serialized only when the rendered-media cache is unset' % tag, f, n.ast, where=where,
-                      runtime_witness='render_body() twice calls the handler twice')
-            # the serialized object is this response's media
-            args = [a for c in n.calls() if is_ser(c) for a in c.args]
-            run.check(any(_is_attr_of(a, r, '_media') for a in args), '%s: what is serialized is the media of the same response' % tag, f, n.ast, where=where)
+                unset_edges = _unset_edges(p, f, cfg, r)
+                run.check(any(flow.dominated_by_edge(cfg, n.id, e) for e in unset_edges),
+                          '%s: the media is serialized only when the rendered-media cache is unset' % tag, f, n.ast, where=where,
+                          runtime_witness='render_body() twice calls the handler twice')
+                if hlp is None:
+                    # the serialized object is this response's media
+                    args = [a for c in n.calls() if is_ser(c) for a in c.args]
+                    run.check(any(_is_attr_of(a, r, '_media') for a in args), '%s: what is serialized is the media of the same response' % tag, f, n.ast, where=where)
             # and the answer is read back from the cache
             readers = [x.id for x in cfg.live_nodes() if x.id != n.id and x.kind == 'stmt' and isinstance(x.ast, (ast.Assign, ast.AnnAssign, ast.Return))
                        and _is_attr_of(getattr(x.ast, 'value', None), r, '_media_rendered')]
@@ -854,7 +1015,7 @@ def r4_render_cache(run):
             if isinstance(n, ast.stmt) and _writes(n, '_media_rendered'):
                 v = getattr(n, 'value', None)
                 is_reset = _is_unset(p, fn, v)
-                is_render = fn.qual in RENDER_SITES and v is not None
+                is_render = (fn.qual in RENDER_SITES or fn.qual in helper_sites) and v is not None
                 run.check(is_reset or is_render, 'the rendered-media cache is written only by a reset to unset or by a render site', fn, n)
 
 
